@@ -172,11 +172,12 @@ def shown (d : Q) : Bool := !hiddenQ d && d.hasCtl
 variable (paths : Str → Path)
 
 /-- `nest_set_nodes`: `ref` = absolute path of the target, `value` only when truthy, resolved in the
-    context of the *triggering* question -/
-def nestSets (ctx : Path) (tag : String) (items : List Trig) : List SetV :=
+    context of the TARGET question (`survey._xpath.get(item[0])`: XForms evaluates the value from the
+    `ref` node) -/
+def nestSets (tag : String) (items : List Trig) : List SetV :=
   items.map fun t =>
     { tag := tag.toList, ref := paths t.target, event := evChanged,
-      value := if t.value.isEmpty then none else some (sub ctx t.value) }
+      value := if t.value.isEmpty then none else some (sub (paths t.target) t.value) }
 
 /-- body controls -/
 inductive Body where
@@ -190,8 +191,8 @@ deriving Repr, Inhabited
 def qCtl (tbl : List Trig) (pre : Path) (d : Q) : List Body :=
   if shown d then
     [.ctl d.tag (pre ++ [d.name])
-      (nestSets sub paths (pre ++ [d.name]) "setvalue" (triggered tbl d.name false) ++
-       nestSets sub paths (pre ++ [d.name]) "odk:setgeopoint" (triggered tbl d.name true))]
+      (nestSets sub paths "setvalue" (triggered tbl d.name false) ++
+       nestSets sub paths "odk:setgeopoint" (triggered tbl d.name true))]
   else []
 
 /-- `Section.xml_control` / `RepeatingSection.xml_control` / `GroupedSection.xml_control` -/
@@ -316,7 +317,7 @@ def hasDup : List Str → Bool
   | [] => false
   | a :: as => as.contains a || hasDup as
 
-/-- the F8 repair (`Survey._is_usable_trigger`, fixes/F8.diff; active when `strict`): a trigger must be
+/-- `Survey._is_usable_trigger` (survey.py, the F8 repair): a trigger must be
     exactly `${t}` for a question `t` that renders a control (a hidden `t` with setvalues attached is
     left to `ctlErr`) -/
 def usableErr (qs : List Q) (tbl : List Trig) (e : Trig) : Option Err :=
@@ -327,7 +328,7 @@ def usableErr (qs : List Q) (tbl : List Trig) (e : Trig) : Option Err :=
     else if t.hasCtl then none else some (.unusableTrigger e.key)
 
 /-- all checks, in the order the implementation meets them (only acceptance is compared) -/
-def check (strict : Bool) (els : List El) : Option Err :=
+def check (els : List El) : Option Err :=
   let qs := questions els
   let names := allNames els
   let tbl := trigTable els
@@ -344,7 +345,7 @@ def check (strict : Bool) (els : List El) : Option Err :=
   match firstErr (keyErr names) tbl with
   | some e => some e
   | none =>
-  match (if strict then firstErr (usableErr qs tbl) tbl else none) with
+  match firstErr (usableErr qs tbl) tbl with
   | some e => some e
   | none =>
   match firstErr (fun d => (defaultRefErr dyn names d).orElse fun _ => calcRefErr names d) qs with
@@ -380,8 +381,8 @@ def gen (dyn : Q → Bool) (sub : Path → Str → Str) (root : Str) (els : List
     binds := binds sub [root] els,
     body := body dyn sub paths tbl [root] els }
 
-def run (strict : Bool) (dyn : Q → Bool) (sub : Path → Str → Str) (root : Str) (els : List El) : Except Err Out :=
-  match check dyn strict els with
+def run (dyn : Q → Bool) (sub : Path → Str → Str) (root : Str) (els : List El) : Except Err Out :=
+  match check dyn els with
   | some e => .error e
   | none => .ok (gen dyn sub root els)
 
